@@ -18,7 +18,9 @@ STDLIB_PURE = {
     'math.isclose', 'math.floor', 'math.trunc', 'math.fabs',
     'encodings.normalize_encoding', 'urllib.parse.unquote',
     'urllib.parse.quote', 'unicodedata.normalize', 'codecs.lookup',
-    'operator.add', 'operator.mul', 'operator.sub',
+    'operator.add', 'operator.mul', 'operator.sub', 'math.log', 'math.log2',
+    'math.log10', 'math.sqrt', 'math.ldexp', 'math.frexp', 'math.fsum',
+    'math.copysign', 'math.isfinite', 'math.isinf', 'math.isnan',
 }
 
 
